@@ -107,6 +107,10 @@ CURATED = [
     ["Block: B", "    Watch: Block Time > 0.3s", "        End block", "    Alarm: Block Time > 0.3s", "        Mark: X", "Mark: after", ""],
     ["Base: s", "Block: B", "    Alarm: Block Time > 0.2s", "        Mark: X", "        Wait: 0.2s", "    Watch: Block Time > 0.4s",
      "        End block", "Mark: after", "Wait: 2s", ""],
+    ["Base: s", "Block: A", "    Block: B", "        Block: C", "            Mark: c", "            End block", "        Wait: 0.5s",
+     "        Mark: b", "        End block", "    Wait: 0.3s", "    End block", "Mark: out", ""],
+    ["Base: s", "Block: A", "    Block: B", "        Block: C", "            Watch: In > 2 L/h", "                End block",
+     "            Wait: 2s", "        Wait: 0.5s", "        End block", "    Mark: a", "    End block", "Mark: out", ""],
     ["Base: s", "Pause: 0.3s", "Mark: p", "Hold: 0.2s", "Mark: h", "Block: B", "    0.2 Mark: inb", "    End block", ""],
 ]
 
